@@ -172,7 +172,7 @@ def perform(world, opname):
         return dict(kind="product", unused=o.attrs["unused"], record=snapshot.record_snapshot(o.record))
     if o.kind == "internal-error" and isinstance(o.exc, Injected):
         return dict(kind="injected")
-    return dict(kind=o.kind, exc=o.exc_name, attrs=o.attrs)
+    return dict(kind=o.kind, exc=o.exc_name, attrs={k: v for k, v in o.attrs.items() if not k.endswith("_objs")})
 
 
 def world_snapshot(world):
